@@ -61,16 +61,24 @@ func funcKeyOf(m *pg.Method) string {
 	return r + "." + m.Name
 }
 
+// useLogFlag makes structuralJudge pass -log (set by C05 for a third of its cases).
+var useLogFlag bool
+
 // structuralJudge runs the tool and compares plan and observation for every method. keep=true leaves
 // the scratch module in place (res.cleanup removes it) for a following behavioural run.
 func structuralJudge(env *hx.Env, p *pg.Prog, files hx.Files, keep bool) *structResult {
 	res := &structResult{Plans: map[string]*pg.Plan{}, Observed: map[string]*pg.Observed{}, Chosen: map[string]map[*pg.Leaf]int{}, cleanup: func() {}}
+	files = pg.EnsureZoo(files)
 	w := pg.NewWorld(files, true, pg.OutPath)
 	if w.Pkg("home") == nil || len(w.Errors) > 0 {
 		res.PlanErr = "generated program does not type-check: " + w.ErrText()
 		return res
 	}
-	o, err := pg.RunModule(env, files)
+	var args []string
+	if useLogFlag {
+		args = []string{"-log", pg.SetupPath} // -log must not change what goes to stderr (C05) nor the code (C18)
+	}
+	o, err := pg.RunModule(env, files, args...)
 	if err != nil {
 		res.PlanErr = err.Error()
 		return res
@@ -226,7 +234,12 @@ func runStructural(t *testing.T, id, level, rule string, quick, thorough int, pf
 	rapidRun(t, env, "programs", env.Pick(quick, thorough), func(rt *rapid.T) {
 		p := pg.GenProg(rt, pf)
 		files := p.Files()
+		useLogFlag = id == "C05" && rapid.IntRange(0, 2).Draw(rt, "logFlag") == 0
+		if useLogFlag {
+			rec.Class("run-with--log")
+		}
 		r := structuralJudge(env, p, files, false)
+		useLogFlag = false
 		if r.PlanErr != "" {
 			rec.Class("generator-invalid-or-plan-error")
 			if rec.Classes["generator-invalid-or-plan-error"] > 10+rec.Evals/10 {
